@@ -3,6 +3,7 @@ import Rare.Proofs.C15PollLive
 import Rare.Proofs.C15PollPlain
 import Rare.Proofs.C15Drained
 import Rare.Proofs.C15TailSpec
+import Rare.Proofs.C15Live
 import Rare.Model.C15Skeleton
 import Rare.Gen.C15
 /-!
@@ -457,6 +458,40 @@ example : (tailAfter "f" 2 3 (fun k => k == 0) [97, 13, 10, 98, 98, 10, 99] [] 2
     (tailAfter "f" 2 3 (fun k => k == 0) [97, 13, 10, 98, 98, 10, 99] [] 2).pending = [[98, 98]] ∧
     (tailAfter "f" 2 3 (fun k => k == 0) [97, 13, 10, 98, 98, 10, 99] [] (2 + 5)).sentAt = [[[97]], [[98, 98], [99]]] := by
   decide
+
+/-- **While the file is still being followed** (the follow reader has delivered `data` without error
+    and is blocked in `Read`): the batcher goroutine is still in its loop (the channel is not closed:
+    the consumer blocks rather than seeing the end), `data` splits into its newline-terminated part
+    `C` and an unterminated rest that waits in the scanner's buffer, what has been sent plus the
+    lines waiting in `batch` are exactly the numbered lines of `C`, no sent batch is empty, and fewer
+    than `batchSize` lines are waiting – they are not lost, but they surface only when the next line
+    arrives or the stream ends (the flush timer is only consulted when a line is appended). -/
+theorem tail_live (source : String) (bufSize batchSize : Nat) (timer : Nat → Bool) (data : Bytes)
+    (script : List Step) (hb : 1 ≤ bufSize) (hs : ∀ st ∈ script, st.err = none) :
+    let s := live source bufSize batchSize timer data script
+    s.status = .running ∧
+    ∃ C r, data = C ++ r ∧ nl ∉ r ∧ (C = [] ∨ C.getLast? = some nl) ∧
+      s.numbered.flatMap Batcher.lineNumbers ++ s.pending.zipIdx s.b.start = (splitLines C).zipIdx 1 ∧
+      (∀ b ∈ s.numbered, b.lines ≠ []) ∧
+      s.pending.length < max batchSize 1 := by
+  intro s
+  obtain ⟨hrun, C, r, h1, h2, h3, h4⟩ := live_spec source bufSize batchSize timer data script hb hs
+  have hj : J source s := j_after source bufSize batchSize timer data script hb _
+  obtain ⟨g1, g2, _⟩ := running_spec hj (by rw [hrun]; decide)
+  refine ⟨hrun, C, r, h1, h2, h3, ?_, g2, ?_⟩
+  · rw [g1, h4]
+  · have hlen : s.pending.length = s.b.cur.len := by
+      obtain ⟨hwf, _⟩ := hj.loop (by rw [hrun]; decide)
+      simp [TSt.pending, TSt.readBatch, read_len hwf]
+    rw [hlen]
+    exact iterN_curBound source batchSize _ timer _ _ (by simp [TSt.init, St.init]; omega)
+
+/-- Non-vacuity of `tail_live`: `a\n` `bb\n` delivered, `c` not yet terminated; timer expired at the
+    first line: one batch sent, `bb` waiting in `batch`, `c` waiting in the scanner. -/
+example : (live "f" 4 3 (fun k => k == 0) [97, 10, 98, 98, 10, 99] []).status = .running ∧
+    (live "f" 4 3 (fun k => k == 0) [97, 10, 98, 98, 10, 99] []).batches = [("f", 1, [[97]])] ∧
+    (live "f" 4 3 (fun k => k == 0) [97, 10, 98, 98, 10, 99] []).pending = [[98, 98]] ∧
+    (live "f" 4 3 (fun k => k == 0) [97, 10, 98, 98, 10, 99] []).imm.pending = [99] := by decide
 
 /-! ### composition with the follow reader -/
 
